@@ -512,7 +512,7 @@ func genRules(r *simkit.RNG, sc *Scenario, k *knobs) string {
 			return s
 		default:
 			if k.metaRules && r.Chance(1, 3) {
-				return simkit.Pick(r, []string{"a+b", "x(y)", "p|q", "^a", "a{2}", "(a", "a)", "a$"})
+				return simkit.Pick(r, []string{"a+b", "x(y)", "p|q", "^a", "a{2}", "(a", "a)", "a$", "[a-c]", "[^a]", "[^a-c]", "[^b]*", "[ab]", "[^ab].tf"})
 			}
 			return simkit.Pick(r, names)
 		}
